@@ -61,20 +61,25 @@ structure TDefects where
   combinedIgnoresIface : Bool
   /-- `a[f:t]` on an array `[n]T` is reported with the array's type `[n]T`; slicing yields `[]T` -/
   arraySliceKeepsArrayType : Bool
+  /-- an integer literal in a call argument is retyped also to an `interface{}` parameter (`isNumber`
+      holds of `interface{}`): `Fa(0)` annotates the literal `interface{}`; repaired by 57c7777 (the
+      literal keeps `int`; found through operator overloading, C17) -/
+  retypeIfaceParam : Bool
   deriving DecidableEq, Repr
 
 /-- the pinned snapshot -/
-def TDefects.asWas : TDefects := ⟨true, true, true, true, true, true, true, true, true, true, true, true, true, true⟩
+def TDefects.asWas : TDefects := ⟨true, true, true, true, true, true, true, true, true, true, true, true, true, true, true⟩
 /-- /repo's current HEAD: after the `fix:` commits 76735a9 (located error first), b6f8e35 (`AsBool` on the
 nil type), 6162013 (numeric-only literal retyping), 106fb38 (closure with a nil-typed body), e2e7046 (`in`
 needs a usable key), 265c5fa (no slicing of maps), a03872c (computed map-literal key must be a string),
-911e74d (ConstantNode), 390c455 (type of a conditional).  The loose index rule and the static slice types of `filter`/`map` are pinned by
+911e74d (ConstantNode), 390c455 (type of a conditional), f1ac5c8 (slicing an array), 57c7777 (no retyping to an
+`interface{}` parameter).  The loose index rule and the static slice types of `filter`/`map` are pinned by
 /repo's own tests and remain, as does `combined` on interface operands. -/
-def TDefects.asIs : TDefects := ⟨false, true, false, false, true, false, false, false, false, false, true, false, true, false⟩
-def TDefects.repaired : TDefects := ⟨false, false, false, false, false, false, false, false, false, false, false, false, false, false⟩
+def TDefects.asIs : TDefects := ⟨false, true, false, false, true, false, false, false, false, false, true, false, true, false, false⟩
+def TDefects.repaired : TDefects := ⟨false, false, false, false, false, false, false, false, false, false, false, false, false, false, false⟩
 /-- intermediate flag sets used for self-tests against partially patched copies of the repository -/
-def TDefects.safeFix : TDefects := ⟨false, true, false, false, true, false, true, true, true, true, true, true, true, true⟩
-def TDefects.safeFix2 : TDefects := ⟨false, true, false, false, true, false, false, false, false, true, true, true, true, true⟩
+def TDefects.safeFix : TDefects := ⟨false, true, false, false, true, false, true, true, true, true, true, true, true, true, true⟩
+def TDefects.safeFix2 : TDefects := ⟨false, true, false, false, true, false, false, false, false, true, true, true, true, true, true⟩
 
 inductive Expect where
   | none | bool | int64 | float64
@@ -258,7 +263,7 @@ def paramFor (ins : List Ty) (variadic : Bool) (numIn offset i : Nat) : OTy :=
 
 /-- may an integer literal be retyped to this parameter type?  At the snapshot: always. -/
 def retypeOk (dt : TDefects) (inT : OTy) : Bool :=
-  dt.retypeAnyParam || isNumberT inT
+  dt.retypeAnyParam || (isNumberT inT && (dt.retypeIfaceParam || !isInterfaceT inT))
 
 /-- an expression built from integer literals only (with `+ - * /` and unary `+ -`) -/
 def intLiteralTree : Node → Bool
